@@ -407,6 +407,12 @@ func (p *Prog) noflow(st Structural) (bool, string) {
 		for iter := 0; changed && iter < 50; iter++ {
 			changed = false
 			mark := func(v ssa.Value) {
+				// numbers and booleans (a command byte, a length, a flag) do not carry statement text
+				if v != nil {
+					if b, ok := v.Type().Underlying().(*types.Basic); ok && b.Info()&(types.IsNumeric|types.IsBoolean) != 0 {
+						return
+					}
+				}
 				if v != nil && !tainted[v] {
 					tainted[v] = true
 					changed = true
@@ -424,6 +430,20 @@ func (p *Prog) noflow(st Structural) (bool, string) {
 										seeded++
 									}
 									mark(ex)
+								}
+							}
+						}
+					}
+					// ... or the single result of a call
+					if call, ok := in.(*ssa.Call); ok && depth == 0 {
+						if _, isTuple := call.Type().(*types.Tuple); !isTuple {
+							for _, s := range srcs {
+								parts := strings.Split(s, ":")
+								if len(parts) == 3 && parts[0] == "ret" && parts[2] == "0" && matchPattern(parts[1], calleeName(call.Common())) {
+									if !tainted[call] {
+										seeded++
+									}
+									mark(call)
 								}
 							}
 						}
@@ -455,6 +475,11 @@ func (p *Prog) noflow(st Structural) (bool, string) {
 							}
 							mark(root)
 							mark(x.Addr)
+						}
+					case *ssa.MapUpdate:
+						// logrus.Fields{"sql": query}: the map carries what is put into it
+						if tainted[x.Value] || tainted[x.Key] {
+							mark(x.Map)
 						}
 					case *ssa.Call:
 						name := calleeName(x.Common())
@@ -494,6 +519,15 @@ func (p *Prog) noflow(st Structural) (bool, string) {
 				case *ssa.Go:
 					c = x.Common()
 				}
+				if c != nil && os.Getenv("ACV_DEBUG_NOFLOW") == "2" && strings.Contains(calleeName(c), "logrus") {
+					ta := false
+					for _, a := range c.Args {
+						if tainted[a] {
+							ta = true
+						}
+					}
+					fmt.Printf("  sinkcand %s match=%v taintedArg=%v pos=%s\n", calleeName(c), matchPattern(sink, calleeName(c)), ta, p.posString(in.Pos()))
+				}
 				if c == nil || !matchPattern(sink, calleeName(c)) {
 					continue
 				}
@@ -510,6 +544,9 @@ func (p *Prog) noflow(st Structural) (bool, string) {
 		}
 	}
 	analyse(fn, nil, 0)
+	if os.Getenv("ACV_DEBUG_NOFLOW") != "" {
+		fmt.Printf("noflow %s in %s: fn=%s seeded=%d hits=%d\n", st.Name, st.PkgPath, fn.String(), seeded, len(hits))
+	}
 	if seeded == 0 {
 		return false, "no source matched in " + fn.String() + " (contract is stale): " + strings.Join(srcs, ",")
 	}
